@@ -35,6 +35,8 @@ def normalize_float(number):
     '-1'
     >>> normalize_float('7')
     '7'
+    >>> normalize_float('1.00')
+    '1.0'
     >>> normalize_float('1.23000')
     '1.23'
     >>> normalize_float('-1.23000')
@@ -68,7 +70,7 @@ def normalize_float(number):
     >>> normalize_float('-5d4')
     '-5e4'
     '''
-    norm = re.sub(r'^([-+]?[0-9]*\.[0-9]*[^0])0+$', r'\1', number)
+    norm = re.sub(r'^([-+]?[0-9]*\.[0-9]*?)0+$', r'\1', number)
     if norm[-1] == '.':
         norm += '0'
     norm = re.sub(r'^([-+]?([0-9]+(\.[0-9]*)?|[0-9]*\.[0-9]+))([-+][0-9]+)$',
